@@ -55,5 +55,7 @@ func checkC10(c *Ctx, r *Report) {
 	ruleCropCases(c, r)
 	ruleCropCounts(c, r)
 	ruleNoMdatHeaderConstant(c, r, "W-MDATHDR")
+	requireFixture(r, "W-MDATHDR", "payloadStartWrong", func(fc *Ctx, s *Report) { ruleNoMdatHeaderConstant(fc, s, "W-MDATHDR") })
+	requireFixture(r, "W-NARROW", "TfrfData.size", func(fc *Ctx, s *Report) { ruleNarrowMul(fc, s, "W-NARROW", nil) })
 	r.Floor("E9", 8)
 }
